@@ -146,6 +146,10 @@ func (opts *Options) Validate() error {
 		return fmt.Errorf("%w: invalid MaxNodeSize", ErrInvalidOptions)
 	}
 
+	if opts.maxNodeSize > MaxNodeSize {
+		return fmt.Errorf("%w: invalid MaxNodeSize", ErrInvalidOptions)
+	}
+
 	if opts.flushThld <= 0 {
 		return fmt.Errorf("%w: invalid FlushThld", ErrInvalidOptions)
 	}
